@@ -369,3 +369,46 @@ func VerifC16_FullSetLatecomer() {
 	}
 	verifReach("end")
 }
+
+// C14 (announce stopped): the owner calls Close while a get_peers reply is still on its way and then
+// stops reading Peers for good - the natural way to abandon an announce. Nothing may stay blocked.
+func VerifC14_AnnounceAbandoned() {
+	verifLimiterAlwaysGrants()
+	v := verifStartServer(verifSrvOpt{noSecurity: true, concreteID: true})
+	verifFreezeClock(true)
+	n := &verifC16Net{v: v, ih: krpc.ID{0x11, 0x22}}
+	r := &verifRemote{addr: &net.UDPAddr{IP: net.IP{10, 7, 0, 1}, Port: 6000}, answers: true, token: "tka"}
+	r.id = n.ih
+	r.id[19] = 1
+	n.remotes = []*verifRemote{r}
+	v.s.config.StartingNodes = func() ([]Addr, error) { return []Addr{NewAddr(r.addr)}, nil }
+	a, err := v.s.AnnounceTraversal(n.ih)
+	if err != nil {
+		verifFail("C14: AnnounceTraversal starts")
+		return
+	}
+	verifQuiesce()
+	n.absorb() // the get_peers query is out, its reply queued by the network
+	deliverAll := func() {
+		for len(n.pending) > 0 {
+			d := n.pending[0]
+			n.pending = n.pending[1:]
+			v.sock.deliver(d.b, d.addr)
+		}
+	}
+	if verifNondetBool() {
+		a.Close() // the owner gives up before the reply arrives ...
+		verifQuiesce()
+		deliverAll()
+		verifReach("close-first")
+	} else {
+		deliverAll() // ... or after it arrived, without ever having read it
+		a.Close()
+		verifQuiesce()
+		verifReach("reply-first")
+	}
+	for i := 0; i < 4 && verifFireTimers() > 0; i++ {
+		verifQuiesce()
+	}
+	verifReach("end")
+}
